@@ -419,6 +419,14 @@ type faultyReader struct {
 	left  int
 	short bool
 	reads int
+	eof   bool // the source simply ends (io.EOF) instead of reporting an error of its own
+}
+
+func (r *faultyReader) fail() error {
+	if r.eof {
+		return io.EOF
+	}
+	return errEntropy
 }
 
 var errEntropy = errors.New("injected entropy source failure")
@@ -428,14 +436,14 @@ func (r *faultyReader) Read(p []byte) (int, error) {
 	if r.short {
 		// legal short reads: at most 1 byte per call until the budget is used, then an error
 		if r.left <= 0 {
-			return 0, errEntropy
+			return 0, r.fail()
 		}
 		if len(p) > 1 {
 			p = p[:1]
 		}
 	}
 	if r.left <= 0 {
-		return 0, errEntropy
+		return 0, r.fail()
 	}
 	if len(p) > r.left {
 		p = p[:r.left]
@@ -443,7 +451,7 @@ func (r *faultyReader) Read(p []byte) (int, error) {
 	n, _ := r.inner.Read(p)
 	r.left -= n
 	if r.left <= 0 && !r.short {
-		return n, errEntropy
+		return n, r.fail()
 	}
 	return n, nil
 }
@@ -454,6 +462,7 @@ type c20EntropyCase struct {
 	Limit  int            `json:"limit"`
 	Short  bool           `json:"short"`
 	Signer string         `json:"signer"` // builtin, stub-error, stub-partial, stub-empty
+	EOF    bool           `json:"eof,omitempty"` // the entropy source ends with io.EOF
 }
 
 func checkC20Entropy(c c20EntropyCase) error {
@@ -488,8 +497,16 @@ func checkC20Entropy(c c20EntropyCase) error {
 	default:
 		mode := c.Signer
 		priv := c.Key.Private()
+		ncalls := 0
 		sg, err = cose.NewSigner(alg, &bridge.StubCryptoSigner{Pub: priv.Public(), SignFn: func(r io.Reader, d []byte, o crypto.SignerOpts) ([]byte, error) {
+			ncalls++
 			switch mode {
+			case "stub-fails-once":
+				// a transient fault: only the first operation of the key fails
+				if ncalls == 1 {
+					return nil, stubErr
+				}
+				return priv.Sign(r, d, o)
 			case "stub-error":
 				return nil, stubErr
 			case "stub-partial":
@@ -505,10 +522,12 @@ func checkC20Entropy(c c20EntropyCase) error {
 	if err != nil {
 		return fmt.Errorf("harness: %v", err)
 	}
-	rd := &faultyReader{inner: refcose.NewEntropy([]byte("c20-entropy")), left: c.Limit, short: c.Short}
+	rd := &faultyReader{inner: refcose.NewEntropy([]byte("c20-entropy")), left: c.Limit, short: c.Short, eof: c.EOF}
+	// a randomised scheme cannot have signed when the source never delivered a single byte
+	mustFail := c.Limit == 0 && c.Key.Family() != "ed" && (c.Signer == "builtin" || c.Signer == "cose-key-inconsistent-pair")
 	payload := []byte("entropy payload")
 	hdr := cose.Headers{Protected: cose.ProtectedHeader{int64(1): alg}}
-	desc := fmt.Sprintf("%s/%s/%s/limit=%d/short=%v", c.Entry, refcose.AlgName(c.Key.Alg), c.Signer, c.Limit, c.Short)
+	desc := fmt.Sprintf("%s/%s/%s/limit=%d/short=%v/eof=%v", c.Entry, refcose.AlgName(c.Key.Alg), c.Signer, c.Limit, c.Short, c.EOF)
 	outcome := "error"
 	switch c.Entry {
 	case "Sign1":
@@ -517,7 +536,7 @@ func checkC20Entropy(c c20EntropyCase) error {
 			if len(out) != 0 {
 				return finding("bytes-with-error", "%s: %d bytes returned with %v", desc, len(out), err)
 			}
-			if c.Signer == "stub-error" || c.Signer == "stub-partial" {
+			if c.Signer == "stub-error" || c.Signer == "stub-partial" || c.Signer == "stub-fails-once" {
 				if !errors.Is(err, stubErr) {
 					return finding("signer-error-lost", "%s: %v", desc, err)
 				}
@@ -543,6 +562,9 @@ func checkC20Entropy(c c20EntropyCase) error {
 			return finding("unusable-signature", "%s: signing reported success under a failing entropy source but the message does not verify: %v", desc, err)
 		}
 		outcome = "success-verifies"
+		if mustFail {
+			return finding("entropy-failure-swallowed", "%s: signing succeeded although the entropy source failed before delivering a single byte", desc)
+		}
 	case "SignMessage2":
 		good, err := libSigner(refcose.KeyMat{Alg: refcose.AlgEdDSA, D: rc.Hex("c20-first-signer-seed-32-bytes!!!")}, false)
 		if err != nil {
@@ -580,6 +602,9 @@ func checkC20Entropy(c c20EntropyCase) error {
 			return finding("unusable-signature", "%s: %v", desc, err)
 		}
 		outcome = "success-verifies"
+		if mustFail {
+			return finding("entropy-failure-swallowed", "%s: signing succeeded although the entropy source failed before delivering a single byte", desc)
+		}
 	case "Countersign0":
 		parent := &cose.Sign1Message{Headers: c20Headers(), Payload: payload, Signature: []byte{1, 2, 3}}
 		sig, err := cose.Countersign0(rd, sg, parent, nil)
@@ -589,7 +614,7 @@ func checkC20Entropy(c c20EntropyCase) error {
 			}
 			break
 		}
-		if c.Signer == "stub-error" || c.Signer == "stub-partial" {
+		if c.Signer == "stub-error" || c.Signer == "stub-partial" || c.Signer == "stub-fails-once" {
 			return finding("signer-error-lost", "%s: Countersign0 succeeded although the crypto.Signer failed", desc)
 		}
 		if real {
@@ -600,6 +625,9 @@ func checkC20Entropy(c c20EntropyCase) error {
 				return finding("unusable-signature", "%s: %v", desc, err)
 			}
 			outcome = "success-verifies"
+			if mustFail {
+				return finding("entropy-failure-swallowed", "%s: signing succeeded although the entropy source failed before delivering a single byte", desc)
+			}
 		}
 	}
 	stats.Class("entropy/" + refcose.AlgName(c.Key.Alg) + "/" + c.Signer + "/" + outcome)
@@ -638,7 +666,7 @@ func TestC20_Entropy(t *testing.T) {
 					if n%nsh != sh {
 						continue
 					}
-					c := c20EntropyCase{Key: km, Entry: entry, Limit: k, Short: short, Signer: "builtin"}
+					c := c20EntropyCase{Key: km, Entry: entry, Limit: k, Short: short, Signer: "builtin", EOF: (k/step)%2 == 1 || k == 0 && short}
 					stats.Eval()
 					judge(t, "c20entropy", c, checkC20Entropy)
 					if n%401 == 0 {
@@ -646,7 +674,7 @@ func TestC20_Entropy(t *testing.T) {
 					}
 				}
 			}
-			for _, sgn := range []string{"stub-error", "stub-partial", "stub-empty", "opaque-trailing-der", "cose-key-inconsistent-pair"} {
+			for _, sgn := range []string{"stub-error", "stub-partial", "stub-empty", "stub-fails-once", "opaque-trailing-der", "cose-key-inconsistent-pair"} {
 				if km.Family() != "ec" && (sgn == "opaque-trailing-der" || sgn == "cose-key-inconsistent-pair") {
 					continue
 				}
